@@ -26,6 +26,10 @@ def make_scratch():
 
 def header(patch):
     props, tier = [], "quick"
+    meta = os.path.join(os.path.dirname(patch), "meta.json")
+    if os.path.exists(meta):
+        m = json.load(open(meta))
+        return m.get("checks") or [m["property"]], m.get("tier", "quick")
     for line in open(patch, encoding="utf-8"):
         m = re.match(r"#\s*property:\s*(.*)", line)
         if m:
@@ -42,7 +46,14 @@ def run(patch, checks=None, keep=False):
     d = make_scratch()
     out = tempfile.mkdtemp(prefix="vf-mut-out-")
     res = {"patch": os.path.relpath(patch, VERIF), "expected": props}
+    demo = os.path.join(os.path.dirname(patch), "demo.py")
+    def run_demo():
+        r = subprocess.run(["/venv/bin/python", "-B", demo], cwd=os.path.join(d, "python"), capture_output=True, text=True,
+                           env=dict(os.environ, PYTHONPATH=os.path.join(d, "python"), PYTHONDONTWRITEBYTECODE="1"), timeout=600)
+        return r.returncode, (r.stdout + r.stderr).strip().splitlines()[-1:] 
     try:
+        if os.path.exists(demo):
+            res["demo_without_change"] = run_demo()
         p = subprocess.run(["patch", "-p1", "-s", "-d", d, "-i", os.path.abspath(patch)], capture_output=True, text=True)
         if p.returncode != 0:
             res["error"] = "patch does not apply: " + (p.stdout + p.stderr)[-300:]
@@ -52,6 +63,9 @@ def run(patch, checks=None, keep=False):
         tail = t.stdout.strip().splitlines()[-1] if t.stdout.strip() else t.stderr[-200:]
         res["baseline_tests"] = tail
         res["baseline_ok"] = t.returncode == 0
+        if os.path.exists(demo):
+            res["demo_with_change"] = run_demo()
+            res["demo_ok"] = res["demo_without_change"][0] == 0 and res["demo_with_change"][0] != 0
         env = dict(os.environ, VERIF_REPO=d, VERIF_OUT_DIR=out)
         res["checks"] = {}
         for c in checks:
